@@ -45,6 +45,14 @@ VH_ENTRY vh_initslot() {
   }
   bool ok = sc->initSlot(w.seg, s, limit, 0.f /* margin */, nondet_grid(8.f, 2), cs, off, dir, 0);
   ASSERT(ok, "initSlot succeeds for a glyph with boxes");
+#ifdef VH_RESOLVE     /* the real ShiftCollider::resolve on the four ranges initSlot built (no neighbour merged): whatever axis and position it picks,
+                         accumulated offset + returned shift stays inside the limit rectangle */
+  { bool isCol = true;
+    Position r = sc->resolve(w.seg, isCol, 0);
+    ASSERT(limit.bl.x <= off.x + r.x && off.x + r.x <= limit.tr.x, "resolve: accumulated offset + shift inside the limit rectangle (x)");
+    ASSERT(limit.bl.y <= off.y + r.y && off.y + r.y <= limit.tr.y, "resolve: accumulated offset + shift inside the limit rectangle (y)");
+    VH_END(); return; }
+#endif
   const Zones &z = sc->_ranges[AXIS];
   ASSERT(z._pos <= z._posm || true, "range computed");
   float v = nondet_grid(8 * FBOUND, 2);
